@@ -68,7 +68,7 @@ P = {
   note="Trusted: Coq kernel; SQLite, go-sqlite3, the GeoPackage library and the verif stand-in for SpatiaLite functions are modelled, held to the code by correspondence on written files.",
   tech=TECH + " (tie H on written files)", ref="DESIGN.md 6 C12"),
  "C13": dict(
-  text="Partial (urfave/cli, file system, path, SQLite modelled). Theorems: target path = dir/name_<id>ext on the safe alphabet (full path.Clean model), distinct ids give distinct files, flag plumbing, validation gate, CLI = per-table composition of writer . route . pipeline(snap cfg), overwrite forgets prior content; C13_source_tie: flag->option map, suffix format, statement shape of injectSuffixIntoPath and IsQuadTree-before-DeviationStats extracted from main.go's AST on every run. Weight is on the end-to-end correspondence of the real binary (built -tags verif, also -race) against the composition of library calls.",
+  text="Partial (urfave/cli, file system, path, SQLite modelled). Theorems: target path = dir/name_<id>ext on the safe alphabet (full path.Clean model), distinct ids give distinct files, an id list with repetitions is the run on its distinct ids (one target file per distinct id: C13_duplicate_ids_one_file_each), flag plumbing, validation gate, CLI = per-table composition of writer . route . pipeline(snap cfg), overwrite forgets prior content; C13_source_tie: flag->option map, suffix format, statement shape of injectSuffixIntoPath and IsQuadTree-before-DeviationStats extracted from main.go's AST on every run. Weight is on the end-to-end correspondence of the real binary (built -tags verif, also -race) against the composition of library calls (id lists with repetitions; date/time attributes compared as instants).",
   note="Trusted: as C12 plus urfave/cli, path, os.",
   tech=TECH + " (CLI glue tie + tie H on the real binary)", ref="DESIGN.md 6 C13"),
  "C14": dict(
